@@ -16,4 +16,6 @@ Definition c14_run (a b c : val) (m : tvmap) :=
    (sa, s_u, u_s, veq s_u u_s),
    (equiv_onb (E_f big) mem, hash_consistent big sts, existsb has_unhashable_literal [a; b; c; sa; sb],
     existsb has_annotated_unreachable [a; b; c; sa; sb], forallb flat [a; b; c],
-    existsb has_nested_annot [a; b; sa; sb; s_u; u_s])).
+    existsb has_nested_annot [sa; sb; s_u; u_s]),
+   root_causes big sts,
+   (let mem3 := flatten a ++ flatten b ++ flatten c in map (fun x => map (E_f big x) mem3) mem3)).
